@@ -49,11 +49,29 @@ func RuleKAllPostings(c *core.Ctx) {
 				continue
 			}
 			// the per-posting writer: a module call in the body that takes the element
+			elems := map[ssa.Value]bool{}
+			for b := range body {
+				for _, ins := range b.Instrs {
+					if ia, ok := ins.(*ssa.IndexAddr); ok && ia.Referrers() != nil {
+						if f, _ := containerRoot(ia.X); f == postings {
+							for _, r := range *ia.Referrers() {
+								if ld, ok := r.(*ssa.UnOp); ok && ld.Op == token.MUL {
+									elems[ld] = true
+								}
+							}
+						}
+					}
+				}
+			}
 			var writes []*ssa.Call
 			for b := range body {
 				for _, ins := range b.Instrs {
 					if call, ok := ins.(*ssa.Call); ok && call.Call.StaticCallee() != nil && core.PkgPathOf(call.Call.StaticCallee()) == pkgBeancount {
-						writes = append(writes, call)
+						for _, a := range call.Call.Args {
+							if elems[a] || elems[core.Strip(a)] {
+								writes = append(writes, call)
+							}
+						}
 					}
 				}
 			}
@@ -387,6 +405,13 @@ func RuleKEmitAll(c *core.Ctx) {
 			dominatedByWrite := false
 			for _, wb := range writeBlocks {
 				if wb == b || wb.Dominates(b) {
+					dominatedByWrite = true
+				}
+			}
+			// a loop over the elements to write counts as "the writes" of a function
+			// whose output is conditional per element (judged element by element by (a))
+			for _, el := range els {
+				if el.h.Dominates(b) {
 					dominatedByWrite = true
 				}
 			}
